@@ -1,2 +1,66 @@
+/-
+  audriver — line protocol: one request per line on stdin → one canonical answer per line on stdout.
+  Runs the very definitions of `AuModel` that the theorems in `AuProofs` are about.
+-/
 import AuModel
-def main : IO Unit := IO.println "audriver"
+open Au
+
+def b01 (b : Bool) : String := if b then "1" else "0"
+
+def evalStr : Eval Int → String
+  | .ok v => toString v
+  | .ub _ => "ub"
+
+def parseNat? (s : String) : Option Nat := s.toNat?
+def parseInt? (s : String) : Option Int := s.toInt?
+
+def cmdCert (args : List String) : String :=
+  match args with
+  | [ts, ns, ds] =>
+    match IntTy.ofName? ts, parseNat? ns, parseNat? ds with
+    | some t, some N, some D =>
+      if N = 0 || D = 0 then "bad-op" else
+      let (lo, hi) := okInterval t N D
+      let tk := match truncKind t N D with
+        | .never => "never"
+        | .modulus d => s!"mod:{d}"
+        | .nonzero => "nonzero"
+      let cat := match categorize N D with
+        | .intMul => "intMul" | .intDiv => "intDiv" | .rational => "rational"
+      s!"compiles={b01 (compiles t N D)} cat={cat} lo={lo} hi={hi} trunc={tk}"
+    | _, _, _ => "bad-op"
+  | _ => "bad-op"
+
+def cmdApplyMag (args : List String) : String :=
+  match args with
+  | [ts, ns, ds, xs] =>
+    match IntTy.ofName? ts, parseNat? ns, parseNat? ds, parseInt? xs with
+    | some t, some N, some D, some x =>
+      if N = 0 || D = 0 || !(decide (t.inRange x)) then "bad-op" else
+      let o := wouldOverflow t N D x
+      let tr := wouldTruncate t N D x
+      let l := isLossy t N D x
+      if compiles t N D then
+        let r := applyMag t N D x
+        s!"ovf={b01 o} trunc={b01 tr} lossy={b01 l} val={evalStr r.val} wrapped={b01 r.wrapped} narrowed={b01 r.narrowed}"
+      else
+        s!"ovf={b01 o} trunc={b01 tr} lossy={b01 l} val=- wrapped=0 narrowed=0"
+    | _, _, _, _ => "bad-op"
+  | _ => "bad-op"
+
+def dispatch (line : String) : String :=
+  match (line.trimAscii.toString.splitOn " ").filter (· ≠ "") with
+  | "cert" :: args => cmdCert args
+  | "applymag" :: args => cmdApplyMag args
+  | _ => "bad-op"
+
+partial def loop (h : IO.FS.Stream) (out : IO.FS.Stream) : IO Unit := do
+  let line ← h.getLine
+  if line.isEmpty then return ()
+  out.putStrLn (dispatch line)
+  loop h out
+
+def main : IO Unit := do
+  let stdin ← IO.getStdin
+  let stdout ← IO.getStdout
+  loop stdin stdout
